@@ -543,7 +543,7 @@ class RandomPrograms:
     def __init__(self, rng, *, names=None, max_depth=4, max_eqs=6, max_names=10, offsets=(-3, -2, -1, 0, 0, 0, 1, 2),
                  allow=('num', 'neg', 'bin', 'paren', 'call1', 'call2', 'cmp', 'ifexp', 'bool', 'verb', 'named', 'block'),
                  kinds=('var', 'var', 'var', 'var', 'param', 'error'), lhs_offsets=(0,), big_offsets=False,
-                 conflict_rate=0.0, funcvar_rate=0.0, underscore_rate=0.0, literals=('1', '2', '0.5', '10', '3.25', '100.0', '0')):
+                 conflict_rate=0.0, funcvar_rate=0.0, underscore_rate=0.0, literals=('1', '2', '0.5', '10', '3.25', '100.0', '0', '.5', '5.', '0.000125')):
         self.rng = rng
         self.pool = list(names or NAME_POOL)
         self.max_depth, self.max_eqs, self.max_names = max_depth, max_eqs, max_names
